@@ -4,6 +4,7 @@ import (
 	"bytes"
 	"fmt"
 
+	"github.com/jrhy/mast"
 	"pgregory.net/rapid"
 	"verif/harness/core"
 	"verif/harness/ref"
@@ -80,6 +81,27 @@ func runC08(c HistCase, o *run.Obs) error {
 	}
 	if err := checkStores(ww); err != nil {
 		return fmt.Errorf("[%s] %w", c.Cfg, err)
+	}
+	// a root name identifies contents for good: loading the retained names again (through the
+	// shared cache and without) must give the contents recorded when the name was returned
+	roots := m.Roots
+	if len(roots) > 6 {
+		roots = roots[len(roots)-6:]
+	}
+	for _, sr := range roots {
+		for pass, cache := range []mast.NodeCache{ww.Cache, nil} {
+			if pass == 0 && cache == nil {
+				continue
+			}
+			lt, err := ww.Load(sr, nil, cache, false)
+			if err != nil {
+				o.Label("aborted:root-not-loadable(C03/C05)")
+				return nil
+			}
+			if err := ww.CompareContents(lt.M, sr.Model); err != nil {
+				return fmt.Errorf("[%s] root name %q no longer identifies the contents it was returned for (cache pass %d): %w", c.Cfg, core.RootOf(sr.Root).Link, pass, err)
+			}
+		}
 	}
 	o.NonTrivial = restoredSame >= 1 && m.Ev.Persists >= 2
 	labelCfg(o, c.Cfg)
